@@ -201,6 +201,19 @@ class QuickPartitioner(BasePass):
                         extended = [q for q in location if q not in bin.qudits]
                         bin.blocked_qudits.update(extended)
 
+                # Every bin that is still active and shares a qudit with
+                # the barrier, directly or through its blocked qudits, has
+                # to be placed before the barrier: it may no longer grow
+                # onto the barrier's qudits, or the two would wait on each
+                # other (also when the shared qudit was closed earlier).
+                for active_bin in active_bins:
+                    if active_bin is None:
+                        continue
+                    indirect = active_bin.blocked_qudits
+                    indirect = indirect.union(active_bin.qudits)
+                    if len(indirect.intersection(location)) != 0:
+                        active_bin.blocked_qudits.update(location)
+
                 # Track the barrier to restore it in partitioned circuit
                 pending_bins.append(BarrierBin(point, location, circuit))
                 continue
